@@ -34,6 +34,101 @@ Lemma sat_add_exact a b : sat_add a b < MAXC -> sat_add a b = a + b.
 Proof. unfold sat_add. lia. Qed.
 
 (* ------------------------------------------------------------------------------------------ *)
+(** * the regenerated arithmetic (gen/ExtractFns.v) is the specified one
+
+    These lemmas are where a change of src/extract.rs surfaces: `saturating_add -> wrapping_add`
+    breaks [cost_combine_sat]; dropping the head cost from `TreeAdditiveCostModel::fold` breaks
+    [tac_fold_sum]; `<` -> `<=` in the relaxation test breaks [relax_improves_lt]; `>` -> `>=` in the
+    rank guard breaks [rank_guard_lt]. *)
+
+Definition sum_fold (cs : list N) (acc : N) : N := fold_left sat_add cs acc.
+
+Lemma u64_max_MAXC : u64_max = MAXC.
+Proof. reflexivity. Qed.
+
+Lemma cost_combine_sat a b : cost_combine a b = sat_add a b.
+Proof. unfold cost_combine, sat_add. rewrite u64_max_MAXC. reflexivity. Qed.
+
+Lemma cost_identity_0 : cost_identity = 0.
+Proof. reflexivity. Qed.
+
+Lemma base_cost_unit : base_value_cost_default = 1.
+Proof. reflexivity. Qed.
+
+Lemma fold_combine_sum cs : forall h,
+  fold_left (fun s_ c_ => cost_combine s_ c_) cs h = sum_fold cs h.
+Proof.
+  induction cs as [|c cs IH]; intros h; [reflexivity|].
+  cbn [fold_left]. unfold sum_fold. cbn [fold_left]. rewrite cost_combine_sat. apply IH.
+Qed.
+
+Lemma tac_fold_sum cs h : tac_fold cs h = sum_fold cs h.
+Proof. unfold tac_fold. apply fold_combine_sum. Qed.
+
+Lemma container_cost_sum cs : container_cost_default cs = sum_fold cs 0.
+Proof. unfold container_cost_default. rewrite fold_combine_sum. reflexivity. Qed.
+
+Lemma relax_vacant_true : relax_vacant_updates = true.
+Proof. reflexivity. Qed.
+
+Lemma relax_improves_lt n o : relax_improves n o = (n <? o).
+Proof. reflexivity. Qed.
+
+Lemma parent_cost_matches_eq best oc :
+  parent_cost_matches best oc = match oc with Some c => N.eqb best c | None => false end.
+Proof. reflexivity. Qed.
+
+Lemma rank_guard_lt t e : rank_guard t e = (e <? t)%nat.
+Proof. reflexivity. Qed.
+
+Lemma rank_combine_max a b : rank_combine a b = Nat.max a b.
+Proof. reflexivity. Qed.
+
+Lemma rank_init_0 : rank_init = 0%nat.
+Proof. reflexivity. Qed.
+
+Lemma rank_prim_0 : rank_prim = 0%nat.
+Proof. reflexivity. Qed.
+
+Lemma parent_first_wins_true : parent_first_wins = true.
+Proof. reflexivity. Qed.
+
+(** the row cost as one left fold with the head cost as the initial accumulator (proof-side form of
+    [row_cost]; `None` if a child has no cost) *)
+Fixpoint fold_cost (s : cstate) (acc : N) (args : list child) : option N :=
+  match args with
+  | [] => Some acc
+  | a :: tl => match child_cost s a with
+               | None => None
+               | Some c => fold_cost s (sat_add acc c) tl
+               end
+  end.
+
+Lemma children_costs_fold s args : forall acc,
+  match children_costs s args with Some cs => Some (sum_fold cs acc) | None => None end
+  = fold_cost s acc args.
+Proof.
+  induction args as [|a args IH]; intros acc; simpl; auto.
+  destruct (child_cost s a) as [c|]; auto.
+  rewrite <- IH. destruct (children_costs s args); reflexivity.
+Qed.
+
+Lemma row_cost_fold g s r : row_cost g s r = fold_cost s (fn_cost g (r_fn r)) (r_args r).
+Proof.
+  unfold row_cost. rewrite <- children_costs_fold.
+  destruct (children_costs s (r_args r)); [|reflexivity]. rewrite tac_fold_sum. reflexivity.
+Qed.
+
+Lemma child_cost_prim s z : child_cost s (CPrim z) = Some 1.
+Proof. reflexivity. Qed.
+
+Lemma child_rank_prim s z : child_rank s (CPrim z) = Some 0%nat.
+Proof. reflexivity. Qed.
+
+Ltac gn := change base_value_cost_default with 1%N in *; change rank_prim with 0%nat in *;
+           change rank_init with 0%nat in *; change rank_combine with Nat.max in *.
+
+(* ------------------------------------------------------------------------------------------ *)
 (** * terms represented by a class *)
 
 Inductive repr (g : graph) : term -> nat -> Prop :=
@@ -56,7 +151,7 @@ Proof. reflexivity. Qed.
 
 Lemma tree_fold_mono g ts : forall a a', a <= a' -> tree_fold g ts a <= tree_fold g ts a'.
 Proof.
-  induction ts as [|t ts IH]; intros a a' H; simpl; auto.
+  induction ts as [|t ts IH]; intros a a' H; (simpl; gn); auto.
   apply IH. apply sat_add_mono; lia.
 Qed.
 
@@ -76,12 +171,13 @@ Proof.
   intros St. apply repr_mutind.
   - intros r ts Hin Hal Hargs IH.
     destruct (IH (fn_cost g (r_fn r)) (fn_cost g (r_fn r)) (N.le_refl _)) as (v & Hv & Hle).
+    rewrite <- row_cost_fold in Hv.
     destruct (St r v Hin Hal Hv) as (oc & k & Hs & Hoc).
     exists oc, k. split; auto. rewrite tree_cost_app. lia.
-  - intros a a' H. exists a. simpl. split; auto.
-  - intros z ts cs Hargs IH a a' H. simpl.
+  - intros a a' H. exists a. (simpl; gn). split; auto.
+  - intros z ts cs Hargs IH a a' H. (simpl; gn).
     apply IH. apply sat_add_mono; lia.
-  - intros t c ts cs Hr (v & k & Hs & Hv) Hargs IH a a' H. simpl. rewrite Hs.
+  - intros t c ts cs Hr (v & k & Hs & Hv) Hargs IH a a' H. (simpl; gn). rewrite Hs.
     apply IH. apply sat_add_mono; lia.
 Qed.
 
@@ -99,8 +195,9 @@ Lemma relax_row_kind g b r : step_kind g b r (relax_row g b r).
 Proof.
   unfold relax_row. destruct (allowed g r) eqn:Hal; [|constructor].
   destruct (row_cost g (b_cs b) r) as [nc|] eqn:Hc; [|constructor].
+  rewrite relax_vacant_true.
   destruct (b_cs b (r_cls r)) as [[oc k]|] eqn:Hs.
-  - destruct (N.ltb_spec nc oc); [|constructor].
+  - rewrite relax_improves_lt. destruct (N.ltb_spec nc oc); [|constructor].
     apply SK_upd; auto. right. eauto.
   - apply SK_upd; auto.
 Qed.
@@ -115,10 +212,11 @@ Proof.
   2:{ intros _. split; auto. discriminate. }
   destruct (row_cost g (b_cs b) r) as [nc|] eqn:Hc.
   2:{ intros _. split; auto. discriminate. }
+  rewrite relax_vacant_true.
   destruct (b_cs b (r_cls r)) as [[oc k]|] eqn:Hs.
-  - destruct (N.ltb_spec nc oc); simpl; [discriminate|].
+  - rewrite relax_improves_lt. destruct (N.ltb_spec nc oc); (simpl; gn); [discriminate|].
     intros _. split; auto. intros _ nc' E. inversion E; subst. eauto.
-  - simpl. discriminate.
+  - (simpl; gn). discriminate.
 Qed.
 
 Lemma relax_row_flag_mono g b r : b_upd b = true -> b_upd (relax_row g b r) = true.
@@ -126,14 +224,14 @@ Proof. intros H. destruct (relax_row_kind g b r); auto. Qed.
 
 Lemma fold_relax_flag_mono g rows : forall b, b_upd b = true ->
   b_upd (fold_left (relax_row g) rows b) = true.
-Proof. induction rows; simpl; auto using relax_row_flag_mono. Qed.
+Proof. induction rows; (simpl; gn); auto using relax_row_flag_mono. Qed.
 
 Lemma fold_relax_noupd g rows : forall b, b_upd (fold_left (relax_row g) rows b) = false ->
   fold_left (relax_row g) rows b = b /\
   forall r, In r rows -> allowed g r = true -> forall nc, row_cost g (b_cs b) r = Some nc ->
      exists oc k, b_cs b (r_cls r) = Some (oc, k) /\ oc <= nc.
 Proof.
-  induction rows as [|r rows IH]; intros b H; simpl in *.
+  induction rows as [|r rows IH]; intros b H; (simpl in *; gn).
   - split; auto. intros ? [].
   - destruct (b_upd (relax_row g b r)) eqn:E.
     + rewrite fold_relax_flag_mono in H by auto. discriminate.
@@ -146,7 +244,7 @@ Lemma round_noupd_stable g s cnt : b_upd (round g s cnt) = false ->
   b_cs (round g s cnt) = s /\ b_cnt (round g s cnt) = cnt /\ stable g s.
 Proof.
   unfold round. intros H. destruct (fold_relax_noupd g (g_rows g) _ H) as [Eq Hall].
-  rewrite Eq. simpl. repeat split; auto.
+  rewrite Eq. (simpl; gn). repeat split; auto.
   intros r nc Hin Hal Hc. exact (Hall r Hin Hal nc Hc).
 Qed.
 
@@ -160,8 +258,6 @@ Definition child_snap (s : cstate) (k : nat) (ch : child) (vc : N) : Prop :=
   | CPrim _ => vc = 1
   | CClass d => exists vd kd, s d = Some (vd, kd) /\ ((vd = vc /\ (kd < k)%nat) \/ vd < vc)
   end.
-
-Definition sum_fold (cs : list N) (acc : N) : N := fold_left sat_add cs acc.
 
 Record Inv (g : graph) (s : cstate) (cnt : nat) : Prop := {
   inv_wit : forall c v k, s c = Some (v, k) -> exists t, repr g t c /\ tree_cost g t = v;
@@ -179,14 +275,14 @@ Lemma fold_cost_snap s (k : nat) args : forall acc v, fold_cost s acc args = Som
   (forall d vd kd, In (CClass d) args -> s d = Some (vd, kd) -> (kd < k)%nat) ->
   exists vs, Forall2 (child_snap s k) args vs /\ v = sum_fold vs acc.
 Proof.
-  induction args as [|a args IH]; intros acc v H Hk; simpl in *.
+  induction args as [|a args IH]; intros acc v H Hk; (simpl in *; gn).
   - inversion H; subst. exists []. split; constructor.
   - destruct (child_cost s a) as [c|] eqn:Hc; [|discriminate].
     assert (Hk' : forall d vd kd, In (CClass d) args -> s d = Some (vd, kd) -> (kd < k)%nat)
       by (intros; eapply Hk; eauto).
     destruct (IH _ _ H Hk') as (vs & HF & Hv).
     exists (c :: vs). split; [|exact Hv]. constructor; auto.
-    destruct a as [d|z]; simpl in *.
+    destruct a as [d|z]; (simpl in *; gn).
     + destruct (s d) as [[vd kd]|] eqn:Hs; [|discriminate]. inversion Hc; subst.
       exists c, kd. split; auto. left. split; auto. eapply Hk; eauto.
     + inversion Hc; auto.
@@ -196,14 +292,14 @@ Lemma fold_cost_wit g s args : forall acc v, fold_cost s acc args = Some v ->
   (forall c v k, s c = Some (v, k) -> exists t, repr g t c /\ tree_cost g t = v) ->
   exists ts, repr_args g ts args /\ tree_fold g ts acc = v.
 Proof.
-  induction args as [|a args IH]; intros acc v H W; simpl in *.
+  induction args as [|a args IH]; intros acc v H W; (simpl in *; gn).
   - inversion H; subst. exists []. split; constructor.
   - destruct (child_cost s a) as [c|] eqn:Hc; [|discriminate].
     destruct (IH _ _ H W) as (ts & Hr & Hv).
-    destruct a as [d|z]; simpl in *.
+    destruct a as [d|z]; (simpl in *; gn).
     + destruct (s d) as [[vd kd]|] eqn:Hs; [|discriminate]. injection Hc as <-.
       destruct (W _ _ _ Hs) as (t & Ht & Htc).
-      exists (t :: ts). split; [constructor; auto|]. simpl. rewrite Htc. exact Hv.
+      exists (t :: ts). split; [constructor; auto|]. (simpl; gn). rewrite Htc. exact Hv.
     + injection Hc as <-. exists (TLit z :: ts). split; [constructor; auto|]. exact Hv.
 Qed.
 
@@ -217,7 +313,7 @@ Lemma child_snap_weaken s s' k ch vc :
      s' d = Some (vd, kd) \/ exists vd' kd', s' d = Some (vd', kd') /\ vd' < vd) ->
   child_snap s' k ch vc.
 Proof.
-  destruct ch as [d|z]; simpl; auto.
+  destruct ch as [d|z]; (simpl; gn); auto.
   intros (vd & kd & Hs & Hor) Hstep.
   destruct (Hstep _ _ _ Hs) as [Hsame|(vd' & kd' & Hs' & Hlt)].
   - exists vd, kd. auto.
@@ -229,7 +325,7 @@ Lemma step_preserves_inv g b r b' : step_kind g b r b' -> In r (g_rows g) ->
 Proof.
   intros K Hin I. destruct K as [|nc Hal Hc Hold]; auto.
   set (s := b_cs b) in *. set (cnt := b_cnt b) in *. set (e := r_cls r) in *.
-  simpl.
+  (simpl; gn).
   (* how entries move from s to the new state *)
   assert (Hstep : forall d vd kd, s d = Some (vd, kd) ->
      cs_set s e (nc, S cnt) d = Some (vd, kd) \/
@@ -242,7 +338,7 @@ Proof.
   - (* witness *)
     intros c v k. unfold cs_set. destruct (Nat.eqb_spec c e) as [->|].
     + intros E. inversion E; subst.
-      unfold row_cost in Hc.
+      rewrite row_cost_fold in Hc.
       destruct (fold_cost_wit g s _ _ _ Hc (inv_wit _ _ _ I)) as (ts & Hr & Hv).
       exists (TApp (r_fn r) ts). split; [apply R_app; auto|]. rewrite tree_cost_app. exact Hv.
     + apply (inv_wit _ _ _ I).
@@ -255,6 +351,7 @@ Proof.
     + intros E. inversion E; subst.
       assert (Hrk : forall d vd kd, In (CClass d) (r_args r) -> s d = Some (vd, kd) -> (kd < S cnt)%nat).
       { intros d vd kd _ Hs. pose proof (inv_rank _ _ _ I _ _ _ Hs) as Hle. fold cnt in Hle. lia. }
+      rewrite row_cost_fold in Hc.
       destruct (fold_cost_snap s (S cnt) _ _ _ Hc Hrk) as (vs & HF & Hv).
       exists r, vs. repeat split; auto.
       eapply Forall2_imp; [|exact HF]. intros ch vc Hsn.
@@ -269,7 +366,7 @@ Lemma fold_relax_inv g rows : forall b, incl rows (g_rows g) ->
   Inv g (b_cs b) (b_cnt b) ->
   Inv g (b_cs (fold_left (relax_row g) rows b)) (b_cnt (fold_left (relax_row g) rows b)).
 Proof.
-  induction rows as [|r rows IH]; intros b Hincl I; simpl; auto.
+  induction rows as [|r rows IH]; intros b Hincl I; (simpl; gn); auto.
   apply IH. { intros x Hx. apply Hincl. right. auto. }
   eapply step_preserves_inv; [apply relax_row_kind| |exact I].
   apply Hincl. left. auto.
@@ -277,13 +374,13 @@ Qed.
 
 Lemma round_inv g s cnt : Inv g s cnt ->
   Inv g (b_cs (round g s cnt)) (b_cnt (round g s cnt)).
-Proof. intros I. unfold round. apply fold_relax_inv; simpl; auto. apply incl_refl. Qed.
+Proof. intros I. unfold round. apply fold_relax_inv; (simpl; gn); auto. apply incl_refl. Qed.
 
 (** the loop, whenever it returns, returns a stable state satisfying the invariant *)
 Lemma bellman_ford_ok g : forall fuel s cnt s' cnt', Inv g s cnt ->
   bellman_ford fuel g s cnt = Ok (s', cnt') -> Inv g s' cnt' /\ stable g s'.
 Proof.
-  induction fuel as [|fuel IH]; intros s cnt s' cnt' I H; simpl in H; [discriminate|].
+  induction fuel as [|fuel IH]; intros s cnt s' cnt' I H; (simpl in H; gn); [discriminate|].
   destruct (b_upd (round g s cnt)) eqn:E.
   - eapply IH; [|exact H]. apply round_inv; auto.
   - inversion H; subst. destruct (round_noupd_stable g s cnt E) as (Es & Ec & St).
@@ -297,11 +394,11 @@ Lemma max_rank_spec s args : forall acc mr, max_rank s acc args = Some mr ->
   (acc <= mr)%nat /\
   forall d, In (CClass d) args -> exists vd kd, s d = Some (vd, kd) /\ (kd <= mr)%nat.
 Proof.
-  induction args as [|a args IH]; intros acc mr H; simpl in *.
+  induction args as [|a args IH]; intros acc mr H; (simpl in *; gn).
   - inversion H; subst. split; auto. intros ? [].
   - destruct (child_rank s a) as [ka|] eqn:Hr; [|discriminate].
     destruct (IH _ _ H) as [Hle Hall]. split; [lia|].
-    intros d [->|Hin]; auto. simpl in Hr.
+    intros d [->|Hin]; auto. (simpl in Hr; gn).
     destruct (s d) as [[vd kd]|]; [|discriminate]. inversion Hr; subst.
     exists vd, ka. split; auto. lia.
 Qed.
@@ -314,10 +411,12 @@ Proof.
   unfold is_parent. intros H.
   apply andb_prop in H. destruct H as [H H3]. apply andb_prop in H. destruct H as [H1 H2].
   apply Nat.eqb_eq in H2. split; auto. split; auto.
+  gn.
   destruct (s c) as [[best rk]|]; [|discriminate].
-  destruct (row_cost g s r) as [rc|]; [|discriminate].
   destruct (max_rank s 0 (r_args r)) as [mr|]; [|discriminate].
   apply andb_prop in H3. destruct H3 as [Ha Hb].
+  rewrite parent_cost_matches_eq in Ha. rewrite rank_guard_lt in Hb.
+  destruct (row_cost g s r) as [rc|]; [|discriminate].
   apply N.eqb_eq in Ha. apply Nat.ltb_lt in Hb. subst rc.
   exists best, rk, mr. auto.
 Qed.
@@ -328,7 +427,7 @@ Proof. unfold parent_edge. apply find_some. Qed.
 
 Lemma bind_ok {A B} (x : Res A) (k : A -> Res B) b : bind x k = Ok b ->
   exists a, x = Ok a /\ k a = Ok b.
-Proof. destruct x; simpl; try discriminate. eauto. Qed.
+Proof. destruct x; (simpl; gn); try discriminate. eauto. Qed.
 
 Lemma recon_args_ok g s rec args : forall ts acc v,
   recon_args rec args = Ok ts -> fold_cost s acc args = Some v ->
@@ -336,15 +435,15 @@ Lemma recon_args_ok g s rec args : forall ts acc v,
       repr g t d /\ tree_cost g t = vd) ->
   repr_args g ts args /\ tree_fold g ts acc = v.
 Proof.
-  induction args as [|a args IH]; intros ts acc v Hr Hc Hrec; simpl in *.
+  induction args as [|a args IH]; intros ts acc v Hr Hc Hrec; (simpl in *; gn).
   - inversion Hr; inversion Hc; subst. split; constructor.
-  - destruct a as [d|z]; simpl in Hc.
+  - destruct a as [d|z]; (simpl in Hc; gn).
     + destruct (s d) as [[vd kd]|] eqn:Hs; [|discriminate].
       apply bind_ok in Hr. destruct Hr as (t & Ht & Hr).
       apply bind_ok in Hr. destruct Hr as (ts' & Hts & Hr). inversion Hr; subst.
       destruct (Hrec d t vd kd (or_introl eq_refl) Ht Hs) as [Hrep Hcost].
       destruct (IH ts' _ _ Hts Hc) as [Hra Hv]. { intros; eapply Hrec; eauto. }
-      split; [constructor; auto|]. simpl. rewrite Hcost. exact Hv.
+      split; [constructor; auto|]. (simpl; gn). rewrite Hcost. exact Hv.
     + apply bind_ok in Hr. destruct Hr as (ts' & Hts & Hr). inversion Hr; subst.
       destruct (IH ts' _ _ Hts Hc) as [Hra Hv]. { intros; eapply Hrec; eauto. }
       split; [constructor; auto|]. exact Hv.
@@ -355,14 +454,14 @@ Qed.
 Lemma reconstruct_ok g s : forall fuel c t v k, reconstruct fuel g s c = Ok t ->
   s c = Some (v, k) -> repr g t c /\ tree_cost g t = v.
 Proof.
-  induction fuel as [|fuel IH]; intros c t v k H Hs; simpl in H; [discriminate|].
+  induction fuel as [|fuel IH]; intros c t v k H Hs; (simpl in H; gn); [discriminate|].
   destruct (parent_edge g s c) as [r|] eqn:Hp; [|discriminate].
   apply parent_edge_spec in Hp. destruct Hp as [Hin Hp].
   apply is_parent_spec in Hp.
   destruct Hp as (Hal & Hcl & best & rk & mr & Hs' & Hrc & _ & _).
   rewrite Hs in Hs'. inversion Hs'; subst best rk. clear Hs'.
   apply bind_ok in H. destruct H as (ts & Hts & H). inversion H; subst t. clear H.
-  unfold row_cost in Hrc.
+  rewrite row_cost_fold in Hrc.
   destruct (recon_args_ok g s _ _ ts _ _ Hts Hrc) as [Hra Hv].
   { intros d t vd kd _ Ht Hd. eapply IH; eauto. }
   subst c. split; [apply R_app; auto|]. rewrite tree_cost_app. exact Hv.
@@ -427,13 +526,13 @@ Qed.
 
 Lemma sum_fold_ge vs : forall b, N.min b MAXC <= sum_fold vs b.
 Proof.
-  induction vs as [|x vs IH]; intros b; simpl; [lia|].
+  induction vs as [|x vs IH]; intros b; (simpl; gn); [lia|].
   specialize (IH (sat_add b x)). unfold sat_add in *. lia.
 Qed.
 
 Lemma fold_cost_ge s args : forall acc v, fold_cost s acc args = Some v -> N.min acc MAXC <= v.
 Proof.
-  induction args as [|a args IH]; intros acc v H; simpl in *.
+  induction args as [|a args IH]; intros acc v H; (simpl in *; gn).
   - inversion H; subst. lia.
   - destruct (child_cost s a) as [c|]; [|discriminate].
     specialize (IH _ _ H). unfold sat_add in *. lia.
@@ -443,10 +542,10 @@ Qed.
 Lemma fold_cost_child_lt s args : forall acc v d vd kd, fold_cost s acc args = Some v ->
   v < MAXC -> In (CClass d) args -> s d = Some (vd, kd) -> vd < MAXC.
 Proof.
-  induction args as [|a args IH]; intros acc v d vd kd H Hv Hin Hs; simpl in *; [tauto|].
+  induction args as [|a args IH]; intros acc v d vd kd H Hv Hin Hs; (simpl in *; gn); [tauto|].
   destruct (child_cost s a) as [c|] eqn:Hc; [|discriminate].
   destruct Hin as [->|Hin].
-  - simpl in Hc. rewrite Hs in Hc. inversion Hc; subst c.
+  - (simpl in Hc; gn). rewrite Hs in Hc. inversion Hc; subst c.
     pose proof (fold_cost_ge _ _ _ _ H). unfold sat_add in *. lia.
   - eapply IH; eauto.
 Qed.
@@ -454,9 +553,9 @@ Qed.
 Lemma snap_fold s k args vs : Forall2 (child_snap s k) args vs -> forall acc acc', acc <= acc' ->
   exists rc, fold_cost s acc args = Some rc /\ rc <= sum_fold vs acc'.
 Proof.
-  induction 1 as [|a vc args vs Ha HF IH]; intros acc acc' Hle; simpl.
+  induction 1 as [|a vc args vs Ha HF IH]; intros acc acc' Hle; (simpl; gn).
   - eauto.
-  - destruct a as [d|z]; simpl in *.
+  - destruct a as [d|z]; (simpl in *; gn).
     + destruct Ha as (vd & kd & Hs & Hor). rewrite Hs.
       apply IH. apply sat_add_mono; auto. destruct Hor as [[-> _]|]; lia.
     + subst vc. apply IH. apply sat_add_mono; lia.
@@ -470,12 +569,12 @@ Lemma snap_tight s k args vs : Forall2 (child_snap s k) args vs -> forall acc ac
   sum_fold vs acc' <= rc ->
   acc = acc' /\ forall d, In (CClass d) args -> exists vd kd, s d = Some (vd, kd) /\ (kd < k)%nat.
 Proof.
-  induction 1 as [|a vc args vs Ha HF IH]; intros acc acc' rc Hle Hlt Hc Hge; simpl in *.
+  induction 1 as [|a vc args vs Ha HF IH]; intros acc acc' rc Hle Hlt Hc Hge; (simpl in *; gn).
   - inversion Hc; subst. split; [lia|]. intros ? [].
   - pose proof (sum_fold_ge vs (sat_add acc' vc)) as Hge'.
     assert (Hns : sat_add acc' vc < MAXC) by lia.
     pose proof (sat_add_exact _ _ Hns) as Hex.
-    destruct a as [d|z]; simpl in *.
+    destruct a as [d|z]; (simpl in *; gn).
     + destruct Ha as (vd & kd & Hs & Hor). rewrite Hs in Hc.
       assert (Hvd : vd <= vc) by (destruct Hor as [[-> _]|]; lia).
       destruct (IH (sat_add acc vd) (sat_add acc' vc) rc) as [Heq Hall]; auto.
@@ -494,9 +593,9 @@ Lemma max_rank_lt s k args : forall acc, (acc < k)%nat ->
   (forall d, In (CClass d) args -> exists vd kd, s d = Some (vd, kd) /\ (kd < k)%nat) ->
   exists mr, max_rank s acc args = Some mr /\ (mr < k)%nat.
 Proof.
-  induction args as [|a args IH]; intros acc Hacc Hall; simpl.
+  induction args as [|a args IH]; intros acc Hacc Hall; (simpl; gn).
   - eauto.
-  - destruct a as [d|z]; simpl.
+  - destruct a as [d|z]; (simpl; gn).
     + destruct (Hall d (or_introl eq_refl)) as (vd & kd & Hs & Hk). rewrite Hs.
       apply IH; [lia|]. intros; apply Hall; right; auto.
     + apply IH; [lia|]. intros; apply Hall; right; auto.
@@ -509,7 +608,8 @@ Proof.
   intros I St c v k Hs Hv.
   destruct (inv_snap _ _ _ I _ _ _ Hs) as (r & vs & Hin & Hal & Hcl & HF & Hsum).
   destruct (snap_fold s k _ _ HF (fn_cost g (r_fn r)) _ (N.le_refl _)) as (rc & Hrc & Hle).
-  destruct (St r rc Hin Hal Hrc) as (oc & k' & Hs' & Hoc).
+  assert (Hrow : row_cost g s r = Some rc) by (rewrite row_cost_fold; exact Hrc).
+  destruct (St r rc Hin Hal Hrow) as (oc & k' & Hs' & Hoc).
   rewrite Hcl, Hs in Hs'. inversion Hs'; subst oc k'. clear Hs'.
   assert (rc = v) by lia. subst rc.
   assert (H1 : sum_fold vs (fn_cost g (r_fn r)) < MAXC) by lia.
@@ -518,8 +618,9 @@ Proof.
   destruct (max_rank_lt s k (r_args r) 0%nat) as (mr & Hmr & Hlt); auto.
   { pose proof (inv_rank _ _ _ I _ _ _ Hs). lia. }
   assert (Hp : is_parent g s c r = true).
-  { unfold is_parent. rewrite Hal, Hcl, Nat.eqb_refl, Hs. unfold row_cost in *. rewrite Hrc, Hmr.
-    simpl. rewrite N.eqb_refl. apply Nat.ltb_lt in Hlt. rewrite Hlt. reflexivity. }
+  { unfold is_parent. rewrite Hal, Hcl, Nat.eqb_refl, Hs. gn. rewrite Hrow, Hmr.
+    rewrite parent_cost_matches_eq, rank_guard_lt.
+    rewrite N.eqb_refl. apply Nat.ltb_lt in Hlt. rewrite Hlt. reflexivity. }
   unfold parent_edge. destruct (find (is_parent g s c) (g_rows g)) eqn:Hf; eauto.
   pose proof (find_none _ _ Hf r Hin). congruence.
 Qed.
@@ -527,11 +628,11 @@ Qed.
 Lemma recon_args_total rec args :
   (forall d, In (CClass d) args -> exists t, rec d = Ok t) -> exists ts, recon_args rec args = Ok ts.
 Proof.
-  induction args as [|a args IH]; intros H; simpl; eauto.
+  induction args as [|a args IH]; intros H; (simpl; gn); eauto.
   destruct IH as (ts & Hts). { intros; apply H; right; auto. }
   destruct a as [d|z].
-  - destruct (H d (or_introl eq_refl)) as (t & Ht). rewrite Ht, Hts. simpl. eauto.
-  - rewrite Hts. simpl. eauto.
+  - destruct (H d (or_introl eq_refl)) as (t & Ht). rewrite Ht, Hts. (simpl; gn). eauto.
+  - rewrite Hts. (simpl; gn). eauto.
 Qed.
 
 (** reconstruction terminates (ranks strictly decrease along parent edges) and never hits the
@@ -540,16 +641,16 @@ Lemma reconstruct_total g s cnt : Inv g s cnt -> stable g s ->
   forall fuel c v k, s c = Some (v, k) -> v < MAXC -> (k < fuel)%nat ->
   exists t, reconstruct fuel g s c = Ok t.
 Proof.
-  intros I St. induction fuel as [|fuel IH]; intros c v k Hs Hv Hk; [lia|]. simpl.
+  intros I St. induction fuel as [|fuel IH]; intros c v k Hs Hv Hk; [lia|]. (simpl; gn).
   destruct (parent_exists g s cnt I St c v k Hs Hv) as (r & Hp). rewrite Hp.
   apply parent_edge_spec in Hp. destruct Hp as [Hin Hp]. apply is_parent_spec in Hp.
   destruct Hp as (Hal & Hcl & best & rk & mr & Hs' & Hrc & Hmr & Hlt).
-  rewrite Hs in Hs'. inversion Hs'; subst best rk. clear Hs'.
+  rewrite Hs in Hs'. inversion Hs'; subst best rk. clear Hs'. rewrite row_cost_fold in Hrc.
   destruct (recon_args_total (reconstruct fuel g s) (r_args r)) as (ts & Hts).
   { intros d Hd. destruct (proj2 (max_rank_spec _ _ _ _ Hmr) d Hd) as (vd & kd & Hsd & Hkd).
     eapply (IH d vd kd); auto; [|lia].
     eapply fold_cost_child_lt; eauto. }
-  rewrite Hts. simpl. eauto.
+  rewrite Hts. (simpl; gn). eauto.
 Qed.
 
 (* ------------------------------------------------------------------------------------------ *)
@@ -571,7 +672,7 @@ Qed.
 
 Lemma sum_fold_le vs : forall acc, sum_fold vs acc <= N.max acc MAXC.
 Proof.
-  induction vs as [|x vs IH]; intros acc; simpl; [lia|].
+  induction vs as [|x vs IH]; intros acc; (simpl; gn); [lia|].
   specialize (IH (sat_add acc x)). unfold sat_add in *. lia.
 Qed.
 
@@ -586,7 +687,7 @@ Qed.
 
 Lemma fold_cost_below_top g s cnt r nc : Inv g s cnt -> row_cost g s r = Some nc -> nc < wtop g.
 Proof.
-  intros I H. unfold row_cost in H.
+  intros I H. rewrite row_cost_fold in H.
   assert (Hk : forall d vd kd, In (CClass d) (r_args r) -> s d = Some (vd, kd) -> (kd < S cnt)%nat).
   { intros d vd kd _ Hs. pose proof (inv_rank _ _ _ I _ _ _ Hs). lia. }
   destruct (fold_cost_snap s (S cnt) _ _ _ H Hk) as (vs & _ & ->).
@@ -597,13 +698,13 @@ Qed.
 
 Lemma mu_le g rows s s' : (forall c, wgt g (s' c) <= wgt g (s c)) -> mu g rows s' <= mu g rows s.
 Proof.
-  intros H. induction rows as [|r rows IH]; simpl; [lia|]. specialize (H (r_cls r)). lia.
+  intros H. induction rows as [|r rows IH]; (simpl; gn); [lia|]. specialize (H (r_cls r)). lia.
 Qed.
 
 Lemma mu_lt g rows s s' r : (forall c, wgt g (s' c) <= wgt g (s c)) -> In r rows ->
   wgt g (s' (r_cls r)) < wgt g (s (r_cls r)) -> mu g rows s' < mu g rows s.
 Proof.
-  intros H Hin Hlt. induction rows as [|x rows IH]; simpl; [destruct Hin|].
+  intros H Hin Hlt. induction rows as [|x rows IH]; (simpl; gn); [destruct Hin|].
   destruct Hin as [->|Hin].
   - pose proof (mu_le g rows s s' H). lia.
   - specialize (IH Hin). specialize (H (r_cls x)). lia.
@@ -613,11 +714,11 @@ Lemma step_measure g b r b' : step_kind g b r b' -> In r (g_rows g) ->
   Inv g (b_cs b) (b_cnt b) ->
   (b' = b) \/ (b_upd b' = true /\ mu g (g_rows g) (b_cs b') < mu g (g_rows g) (b_cs b)).
 Proof.
-  intros K Hin I. destruct K as [|nc Hal Hc Hold]; auto. right. simpl. split; auto.
+  intros K Hin I. destruct K as [|nc Hal Hc Hold]; auto. right. (simpl; gn). split; auto.
   pose proof (fold_cost_below_top _ _ _ _ _ I Hc) as Htop.
   assert (Hr : wgt g (cs_set (b_cs b) (r_cls r) (nc, S (b_cnt b)) (r_cls r)) < wgt g (b_cs b (r_cls r))).
-  { unfold cs_set. rewrite Nat.eqb_refl. simpl.
-    destruct Hold as [->|(oc & k & -> & Hlt)]; simpl; auto. }
+  { unfold cs_set. rewrite Nat.eqb_refl. (simpl; gn).
+    destruct Hold as [->|(oc & k & -> & Hlt)]; (simpl; gn); auto. }
   apply mu_lt with (r := r); auto.
   intros c. unfold cs_set. destruct (Nat.eqb_spec c (r_cls r)) as [->|]; [|lia].
   unfold cs_set in Hr. rewrite Nat.eqb_refl in Hr. lia.
@@ -628,7 +729,7 @@ Lemma fold_relax_measure g rows : forall b, incl rows (g_rows g) -> Inv g (b_cs 
   mu g (g_rows g) (b_cs b') <= mu g (g_rows g) (b_cs b) /\
   (b_upd b' = true -> b_upd b = true \/ mu g (g_rows g) (b_cs b') < mu g (g_rows g) (b_cs b)).
 Proof.
-  induction rows as [|r rows IH]; intros b Hincl I; simpl.
+  induction rows as [|r rows IH]; intros b Hincl I; (simpl; gn).
   - split; [lia|auto].
   - assert (Hin : In r (g_rows g)) by (apply Hincl; left; auto).
     assert (Hincl' : incl rows (g_rows g)) by (intros x Hx; apply Hincl; right; auto).
@@ -644,11 +745,11 @@ Lemma bellman_ford_total g : forall fuel s cnt, Inv g s cnt ->
   (N.to_nat (mu g (g_rows g) s) < fuel)%nat ->
   exists s' cnt', bellman_ford fuel g s cnt = Ok (s', cnt').
 Proof.
-  induction fuel as [|fuel IH]; intros s cnt I Hm; [lia|]. simpl.
+  induction fuel as [|fuel IH]; intros s cnt I Hm; [lia|]. (simpl; gn).
   destruct (b_upd (round g s cnt)) eqn:E; eauto.
   apply IH; [apply round_inv; auto|].
   destruct (fold_relax_measure g (g_rows g) (mkBF s cnt false) (incl_refl _) I) as [_ Hflag].
-  simpl in Hflag. unfold round in E. destruct (Hflag E) as [|Hlt]; [discriminate|].
+  (simpl in Hflag; gn). unfold round in E. destruct (Hflag E) as [|Hlt]; [discriminate|].
   unfold round. lia.
 Qed.
 
@@ -662,8 +763,8 @@ Qed.
 Lemma bellman_ford_fuel_mono g : forall fuel fuel' s cnt res, bellman_ford fuel g s cnt = Ok res ->
   (fuel <= fuel')%nat -> bellman_ford fuel' g s cnt = Ok res.
 Proof.
-  induction fuel as [|fuel IH]; intros fuel' s cnt res H Hle; simpl in H; [discriminate|].
-  destruct fuel' as [|fuel']; [lia|]. simpl.
+  induction fuel as [|fuel IH]; intros fuel' s cnt res H Hle; (simpl in H; gn); [discriminate|].
+  destruct fuel' as [|fuel']; [lia|]. (simpl; gn).
   destruct (b_upd (round g s cnt)); auto. apply IH; auto. lia.
 Qed.
 
@@ -714,17 +815,17 @@ Definition f4_graph : graph :=
 
 Lemma f4_has_term : repr f4_graph (TApp 2 [TApp 4 [TApp 3 []]]) 2%nat.
 Proof.
-  apply (R_app f4_graph (mkRow 2 [CClass 1] 2%nat false)); simpl; auto.
+  apply (R_app f4_graph (mkRow 2 [CClass 1] 2%nat false)); (simpl; gn); auto.
   constructor; [|constructor].
-  apply (R_app f4_graph (mkRow 4 [CClass 3] 1%nat false)); simpl; auto 10.
+  apply (R_app f4_graph (mkRow 4 [CClass 3] 1%nat false)); (simpl; gn); auto 10.
   constructor; [|constructor].
-  apply (R_app f4_graph (mkRow 3 [] 3%nat false)); simpl; auto 10.
+  apply (R_app f4_graph (mkRow 3 [] 3%nat false)); (simpl; gn); auto 10.
   constructor.
 Qed.
 
 Lemma bellman_ford_no_panic g : forall fuel s cnt, bellman_ford fuel g s cnt <> Panic.
 Proof.
-  induction fuel as [|fuel IH]; intros s cnt; simpl; [discriminate|].
+  induction fuel as [|fuel IH]; intros s cnt; (simpl; gn); [discriminate|].
   destruct (b_upd (round g s cnt)); [apply IH|discriminate].
 Qed.
 
@@ -749,15 +850,15 @@ Lemma root_variants_spec g s root c r : In (c, r) (root_variants g s root) ->
   In r (g_rows g) /\ allowed g r = true /\ r_cls r = root /\ row_cost g s r = Some c.
 Proof.
   unfold root_variants. intros H. apply in_flat_map in H. destruct H as (r' & Hin & H).
-  destruct (allowed g r') eqn:Hal; simpl in H; [|tauto].
-  destruct (Nat.eqb_spec (r_cls r') root); [|simpl in H; tauto].
-  destruct (row_cost g s r') eqn:Hc; simpl in H; [|tauto].
+  destruct (allowed g r') eqn:Hal; (simpl in H; gn); [|tauto].
+  destruct (Nat.eqb_spec (r_cls r') root); [|(simpl in H; gn); tauto].
+  destruct (row_cost g s r') eqn:Hc; (simpl in H; gn); [|tauto].
   destruct H as [H|[]]. inversion H; subst. auto.
 Qed.
 
 Lemma root_variants_nodup g s root : NoDup (g_rows g) -> NoDup (map snd (root_variants g s root)).
 Proof.
-  unfold root_variants. induction (g_rows g) as [|r rows IH]; intros ND; simpl; [constructor|].
+  unfold root_variants. induction (g_rows g) as [|r rows IH]; intros ND; (simpl; gn); [constructor|].
   inversion ND as [|? ? Hnin ND']; subst. rewrite map_app.
   set (F := fun r0 => if allowed g r0 && Nat.eqb (r_cls r0) root
                       then match row_cost g s r0 with Some c => [(c, r0)] | None => [] end else []) in *.
@@ -767,33 +868,33 @@ Proof.
     destruct (allowed g r' && Nat.eqb (r_cls r') root); [|destruct Hx].
     destruct (row_cost g s r'); [|destruct Hx]. destruct Hx as [Hx|[]]. inversion Hx; subst. auto. }
   unfold F at 1.
-  destruct (allowed g r && Nat.eqb (r_cls r) root); simpl; auto.
-  destruct (row_cost g s r); simpl; auto.
+  destruct (allowed g r && Nat.eqb (r_cls r) root); (simpl; gn); auto.
+  destruct (row_cost g s r); (simpl; gn); auto.
   constructor; auto.
 Qed.
 
 Lemma insert_by_cost_perm x l : Permutation (insert_by_cost x l) (x :: l).
 Proof.
-  induction l as [|y l IH]; simpl; auto.
+  induction l as [|y l IH]; (simpl; gn); auto.
   destruct (fst x <? fst y); auto.
   eapply perm_trans; [apply perm_skip; exact IH|apply perm_swap].
 Qed.
 
 Lemma sort_by_cost_perm l : Permutation (sort_by_cost l) l.
 Proof.
-  induction l as [|x l IH]; simpl; auto.
+  induction l as [|x l IH]; (simpl; gn); auto.
   eapply perm_trans; [apply insert_by_cost_perm|auto].
 Qed.
 
 Lemma firstn_in {A} (l : list A) : forall k x, In x (firstn k l) -> In x l.
 Proof.
-  induction l as [|a l IH]; intros [|k] x H; simpl in *; try tauto.
+  induction l as [|a l IH]; intros [|k] x H; (simpl in *; gn); try tauto.
   destruct H; auto. right. eauto.
 Qed.
 
 Lemma firstn_nodup {A} (l : list A) : forall k, NoDup l -> NoDup (firstn k l).
 Proof.
-  induction l as [|a l IH]; intros [|k] ND; simpl; try constructor.
+  induction l as [|a l IH]; intros [|k] ND; (simpl; gn); try constructor.
   - inversion ND; subst. intros H. apply firstn_in in H. auto.
   - inversion ND; subst. auto.
 Qed.
@@ -802,11 +903,11 @@ Lemma variants_terms_spec g s cnt : forall l out, variants_terms g s cnt l = Ok 
   Forall2 (fun cr ct => fst ct = fst cr /\ exists ts, snd ct = TApp (r_fn (snd cr)) ts /\
              recon_args (reconstruct (S cnt) g s) (r_args (snd cr)) = Ok ts) l out.
 Proof.
-  induction l as [|[c r] l IH]; intros out H; simpl in H.
+  induction l as [|[c r] l IH]; intros out H; (simpl in H; gn).
   - inversion H. constructor.
   - apply bind_ok in H. destruct H as (ts & Hts & H).
     apply bind_ok in H. destruct H as (rest & Hrest & H). inversion H; subst.
-    constructor; auto. simpl. split; auto. eauto.
+    constructor; auto. (simpl; gn). split; auto. eauto.
 Qed.
 
 (** each variant of [(extract e k)] is a member of the class (through allowed rows only), its tree
@@ -827,11 +928,11 @@ Proof.
   - assert (Hsel : forall c r, In (c, r) sel -> In (c, r) (root_variants g s root)).
     { intros c r Hin. apply firstn_in in Hin.
       eapply Permutation_in; [apply sort_by_cost_perm|exact Hin]. }
-    clearbody sel. induction H as [|[c r] ct l out' Hh HF IH]; simpl; constructor.
-    + destruct Hh as (Hfst & ts & Hsnd & Hrec). simpl in *.
+    clearbody sel. induction H as [|[c r] ct l out' Hh HF IH]; (simpl; gn); constructor.
+    + destruct Hh as (Hfst & ts & Hsnd & Hrec). (simpl in *; gn).
       destruct (root_variants_spec g s root c r (Hsel c r (or_introl eq_refl)))
         as (Hin & Hal & Hcl & Hrc).
-      unfold row_cost in Hrc.
+      rewrite row_cost_fold in Hrc.
       assert (Hrk : forall d t vd kd, In (CClass d) (r_args r) ->
                  reconstruct (S cnt) g s d = Ok t -> s d = Some (vd, kd) ->
                  repr g t d /\ tree_cost g t = vd).
@@ -847,7 +948,7 @@ Proof.
     { eapply Permutation_NoDup; [|exact ND1]. apply Permutation_map. apply Permutation_sym.
       apply sort_by_cost_perm. }
     rewrite <- firstn_map. apply firstn_nodup. exact ND2.
-  - assert (Hlen : length out = length sel) by (clear -H; induction H; simpl; auto).
+  - assert (Hlen : length out = length sel) by (clear -H; induction H; (simpl; gn); auto).
     rewrite Hlen. unfold sel. rewrite firstn_length. lia.
 Qed.
 
@@ -865,4 +966,59 @@ Proof.
   rewrite forallb_forall in H1, H2. split.
   - intros root o Hin. exact (H1 _ Hin).
   - intros root k o Hin. exact (H2 _ Hin).
+Qed.
+
+(* ------------------------------------------------------------------------------------------ *)
+(** * source-side statements pinned in Props/C07.v (about gen/ExtractFns.v) *)
+
+Lemma src_combine_saturating a b : cost_combine a b = N.min (a + b) MAXC.
+Proof. rewrite cost_combine_sat. reflexivity. Qed.
+
+Lemma src_fold_head_plus_children cs h :
+  tac_fold cs h = fold_left (fun s c => N.min (s + c) MAXC) cs h.
+Proof. rewrite tac_fold_sum. reflexivity. Qed.
+
+Lemma src_container_cost_sum cs :
+  container_cost_default cs = fold_left (fun s c => N.min (s + c) MAXC) cs 0.
+Proof. rewrite container_cost_sum. reflexivity. Qed.
+
+Lemma src_relax_strict : relax_vacant_updates = true /\ forall n o, relax_improves n o = true <-> n < o.
+Proof. split; [reflexivity|]. intros n o. rewrite relax_improves_lt. apply N.ltb_lt. Qed.
+
+Lemma src_parent_tests :
+  (forall best oc, parent_cost_matches best oc = true <-> oc = Some best) /\
+  (forall t e, rank_guard t e = true <-> (e < t)%nat) /\ parent_first_wins = true.
+Proof.
+  split; [|split; [|reflexivity]].
+  - intros best oc. rewrite parent_cost_matches_eq. destruct oc as [c|].
+    + rewrite N.eqb_eq. split; [intros ->; reflexivity|intros E; inversion E; reflexivity].
+    + split; discriminate.
+  - intros t e. rewrite rank_guard_lt. apply Nat.ltb_lt.
+Qed.
+
+Lemma src_rank : rank_init = 0%nat /\ rank_prim = 0%nat /\ forall a b, rank_combine a b = Nat.max a b.
+Proof. repeat split. Qed.
+
+Lemma src_base_value_cost : base_value_cost_default = 1 /\ cost_identity = 0.
+Proof. split; reflexivity. Qed.
+
+(** the model's row cost / update test / parent test ARE the regenerated functions *)
+Lemma model_uses_regenerated :
+  (forall g s r, row_cost g s r =
+     match children_costs s (r_args r) with
+     | Some cs => Some (tac_fold cs (fn_cost g (r_fn r))) | None => None end) /\
+  (forall s z, child_cost s (CPrim z) = Some base_value_cost_default) /\
+  (forall g b r nc oc k, allowed g r = true -> row_cost g (b_cs b) r = Some nc ->
+     b_cs b (r_cls r) = Some (oc, k) ->
+     relax_row g b r = if relax_improves nc oc
+                       then mkBF (cs_set (b_cs b) (r_cls r) (nc, S (b_cnt b))) (S (b_cnt b)) true
+                       else b) /\
+  (forall g s c r best rk mr, allowed g r = true -> r_cls r = c -> s c = Some (best, rk) ->
+     max_rank s rank_init (r_args r) = Some mr ->
+     is_parent g s c r = parent_cost_matches best (row_cost g s r) && rank_guard rk mr).
+Proof.
+  split; [reflexivity|]. split; [reflexivity|]. split.
+  - intros g b r nc oc k Hal Hc Hs. unfold relax_row. rewrite Hal, Hc, Hs. reflexivity.
+  - intros g s c r best rk mr Hal Hcl Hs Hmr. unfold is_parent.
+    rewrite Hal, Hcl, Nat.eqb_refl, Hs, Hmr. reflexivity.
 Qed.
